@@ -81,6 +81,7 @@ def scenario(ctx, seed, goal, phase, party, lose, record_controls=None):
                 w.lose(d.seq)
         torn[0] = True
         t_down = w.now_ms()
+        built = any(c.state == "READY" for c in w.ov["o"].circuits.values())
         if party == "o-destroy":
             if w.ov["o"].circuits:
                 w.remove_circuit("o", cid, True)
@@ -102,6 +103,8 @@ def scenario(ctx, seed, goal, phase, party, lose, record_controls=None):
                     if st["exit"][n]:
                         w.node_remove_exit(n, st["exit"][n][0]["cid"])
                         break
+        elif party == "nobody":
+            pass            # nobody tears anything down: the circuit is simply left to the lost messages and the timers
         elif party == "exit":
             st = w.project()
             for n in reversed(w.names):
@@ -110,7 +113,8 @@ def scenario(ctx, seed, goal, phase, party, lose, record_controls=None):
                     break
         pump()
         # time passes: every timer fires in order; whatever is sent is delivered unless it is in the loss set
-        deadline = t_down + BOUND_MS + BUILD_MS + 1000
+        # a circuit that is not ready when it is abandoned may use its whole retry budget before the limits apply
+        deadline = t_down + BOUND_MS + (5000 if built else BUILD_MS) + 1000
         for _ in range(4000):
             pump()
             ts = w.loop.timers()
@@ -120,7 +124,12 @@ def scenario(ctx, seed, goal, phase, party, lose, record_controls=None):
         if party in ("o-vanish",):
             # the vanished originator's own tables are its own business: only the others must be quiet
             pass
-        w.expect_quiet() if party != "o-vanish" else w.log("ExpectQuietOthers", n="o")
+        if party == "nobody" and not lose:
+            pass            # nothing lost, nobody tore down: the circuit is alive and well
+        elif party == "o-vanish":
+            w.log("ExpectQuietOthers", n="o")
+        else:
+            w.expect_quiet()
         tr = {"events": w.events, "topology": "line4", "seed": seed,
               "profile": "g%d %s %s lose=%s" % (goal, phase, party, sorted(lose))}
         K.check_escapes(ctx, w, tr, "fault-enum")
@@ -150,21 +159,32 @@ def run(tier, seed, replay=None):
     rng = random.Random(seed)
     runs, hdr = [], None
     maxf = 2 if tier == "quick" else 3
-    cap = 12 if tier == "quick" else 250
-    cells = [(g, ph, pa) for g in (1, 2, 3) for ph in ("half", "ready", "transfer")
-             for pa in ("o-destroy", "o-quiet", "o-vanish", "relay", "exit")]
+    cap = 2 if tier == "quick" else 250
+    parties = ("o-destroy", "o-quiet", "o-vanish", "relay", "exit")
+    cells = [(g, ph, pa) for g in (1, 2, 3) for ph in ("half", "ready", "transfer") for pa in parties]
+    cells += [(g, "half", "nobody") for g in (1, 2, 3)]
     if tier == "quick":
-        cells = [c for i, c in enumerate(cells) if (i + seed) % 3 == 0] + [(3, "ready", "o-vanish"), (2, "transfer", "exit")]
+        # every hop count; the parties rotate with the seed over the phases, the loss-only cells are always there
+        keep = []
+        for gi, g in enumerate((1, 2, 3)):
+            keep.append((g, "half", "nobody"))
+            for pi, ph in enumerate(("half", "ready", "transfer")):
+                keep.append((g, ph, parties[(gi + pi + seed) % 5]))
+            keep.append((g, "ready", "exit" if g > 1 else "o-quiet"))
+        cells = [c for c in cells if c in keep]
     enumerated = 0
     for ci, (g, ph, pa) in enumerate(cells):
         counts = []
         tr, hdr = scenario(ctx, seed * 1000 + ci, g, ph, pa, set(), counts)
-        runs.append(tr)
+        if pa != "nobody":
+            runs.append(tr)
         ncontrol = counts[0]
-        sets = [s for f in range(1, maxf + 1) for s in itertools.combinations(range(1, ncontrol + 1), f)]
-        if len(sets) > cap:
-            sets = rng.sample(sets, cap)
-        for s in sets:
+        # every single loss always; larger sets up to the cap
+        sets = [(i,) for i in range(1, ncontrol + 1)]
+        more = [s for f in range(2, maxf + 1) for s in itertools.combinations(range(1, ncontrol + 1), f)]
+        if len(more) > cap:
+            more = rng.sample(more, cap)
+        for s in sets + more:
             tr, hdr = scenario(ctx, seed * 1000 + ci, g, ph, pa, set(s))
             runs.append(tr)
             enumerated += 1
